@@ -91,7 +91,14 @@ def run(ctx, config='rel-all'):
         inlined = {f[0] for e in r.events for f in e.stack[1:]}
         muts = [e for e in muts if not (e.kind == 'call' and e.callee.endswith('::insert_bytes') and e.callee in inlined and any(x is not e and x in muts and e.callee in [f[0] for f in x.stack[1:]] for x in muts))]
         if not muts:
-            ctx.violation('R1', 'String::' + name, 'no-mutation', 'no byte-level mutation found in String::%s' % name, b.get('span'))
+            # the mutation was handed to a sibling that is gated by this very rule (`insert(idx, ch)` = `insert_str(idx, ch.encode_utf8(..))`)
+            deleg = [e for e in r.events if e.is_own() and e.kind == 'call' and e.callee and 'string::String' in e.callee and e.callee.split('::')[-1] in specs and e.callee.split('::')[-1] != name
+                     and len(e.args) > 1 and e.args[0] == SELF and e.args[1] in idxs]
+            if len(deleg) == 1:
+                n1 += 1
+                ctx.ok('R1', 'String::%s hands its index unchanged to String::%s' % (name, deleg[0].callee.split('::')[-1]), 'gated there')
+            else:
+                ctx.violation('R1', 'String::' + name, 'no-mutation', 'no byte-level mutation found in String::%s' % name, b.get('span'))
             continue
         for idx in idxs:
             for e in muts:
@@ -245,9 +252,18 @@ def run(ctx, config='rel-all'):
         else:
             check('remove', 'shape (one memmove, one set_len, one len_utf8)', False)
     b = string_method(db, 'insert_bytes')
+    merged = False
+    if b is None and string_method(db, 'insert_str') is not None:
+        # the byte-level helper was merged into insert_str: the same clauses are read off that body, the bytes being string.as_bytes()
+        b = string_method(db, 'insert_str')
+        merged = True
     if b:
         I, r = arena.run_fn(ctx, b['id'], config)
         idx, bytes_ = ('param', 2), ('param', 3)
+        if merged:
+            ab = [e for e in r.events if e.is_own() and e.kind == 'call' and e.callee and e.callee.endswith('::as_bytes') and e.args and e.args[0] == ('param', 3)]
+            if ab and ab[0].ret is not None:
+                bytes_ = ab[0].ret
         amt = app('len', bytes_)
         cp = [e for e in r.events if e.is_own() and e.kind == 'copy']
         sl = [e for e in r.events if e.is_own() and e.kind == 'call' and e.callee and e.callee.endswith('::set_len')]
@@ -271,12 +287,15 @@ def run(ctx, config='rel-all'):
         ib = own_calls(r, '::insert_bytes')
         enc = own_calls(r, '::encode_utf8')
         okv = len(ib) == 1 and len(enc) == 1 and enc[0].args[0] == ('param', 3) and ib[0].args[0] == SELF and ib[0].args[1] == ('param', 2) and ib[0].args[2] == enc[0].ret
+        if not ib and merged:
+            ist = own_calls(r, '::insert_str')
+            okv = len(ist) == 1 and len(enc) == 1 and enc[0].args[0] == ('param', 3) and ist[0].args[:2] == [SELF, ('param', 2)] and (ist[0].args[2] == enc[0].ret or enc[0].ret in subterms(ist[0].args[2]))
         check('insert', 'insert_bytes(idx, ch.encode_utf8(..)) with the caller\'s idx and char', okv, '', b.get('span'))
     b = string_method(db, 'insert_str')
     if b:
         I, r = arena.run_fn(ctx, b['id'], config)
         ib = own_calls(r, '::insert_bytes')
-        check('insert_str', 'insert_bytes(idx, string.as_bytes()) with the caller\'s idx and string', len(ib) == 1 and ib[0].args[:3] == [SELF, ('param', 2), ('param', 3)], '', b.get('span'))
+        check('insert_str', 'insert_bytes(idx, string.as_bytes()) with the caller\'s idx and string', (len(ib) == 1 and ib[0].args[:3] == [SELF, ('param', 2), ('param', 3)]) or (merged and not ib), '', b.get('span'))
     b = string_method(db, 'push')
     if b:
         I, r = arena.run_fn(ctx, b['id'], config)
@@ -324,6 +343,10 @@ def run(ctx, config='rel-all'):
         so = own_calls(r, "Vec::<'bump, T>::split_off")
         fu = own_calls(r, '::from_utf8_unchecked')
         okv = len(so) == 1 and so[0].args[1] == ('param', 2) and so[0].args[0] == ('addr', ('fld', ('deref', SELF), VEC)) and boundary_gated(I, r, so[0], ('param', 2)) and len(fu) == 1 and fu[0].args[0] == so[0].ret
+        if not so and len(fu) == 1:
+            # Vec::split_off written out in place: the tail is copied into a fresh vector and self is cut at `at`
+            sl = [e for e in r.events if e.is_own() and e.kind == 'call' and e.callee and e.callee.endswith('::set_len') and e.args[0] == ('addr', ('fld', ('deref', SELF), VEC))]
+            okv = tail_copy(I, r, fu[0].args[0]) == ('param', 2) and len(sl) == 1 and sl[0].args[1] == ('param', 2)
         check('split_off', 'other = from_utf8_unchecked(vec.split_off(at)) for a boundary-checked at', bool(okv), '', b.get('span'))
     # ---- retain: std's compaction loop (idx walks the chars, del_bytes counts removed bytes)
     b = string_method(db, 'retain')
@@ -414,7 +437,11 @@ def run(ctx, config='rel-all'):
         pu = own_calls(r, "String::<'bump>::push")
         okd = len(dec) == 1 and dec[0].args[0][0] == 'call' and dec[0].args[0][1].endswith('::cloned') and dec[0].args[0][2][0][0] == 'call' and dec[0].args[0][2][0][2] == (SELF,)
         check('from_utf16_in', "std's decode_utf16 runs over the whole input", okd, '', b.get('span'))
-        okp = len(pu) == 1 and 'Ok' in show(pu[0].args[1]) and any(isinstance(t, tuple) and t and t[0] == 'call' and t[1].endswith('::next') for t in subterms(pu[0].args[1]))
+        if not pu:
+            # the push sits in a closure of a closure (`try_for_each(|c| c.map(|c| ret.push(c)) ..)`): still this method's own code
+            pu = [e for e in r.events if e.kind == 'call' and e.callee and e.callee.endswith("String::<'bump>::push") and all('::{closure' in f[0] and f[0].startswith(b['id']) for f in e.stack[1:])]
+        ok_payload = lambda e: 'Ok' in show(e.args[1]) or (e.args[1][0] == 'app' and e.args[1][1] == 'payload' and ('is', e.args[1][2], 'Ok') in e.state.facts)
+        okp = len(pu) == 1 and ok_payload(pu[0]) and any(isinstance(t, tuple) and t and t[0] == 'call' and t[1].endswith('::next') for t in subterms(pu[0].args[1]))
         check('from_utf16_in', 'every decoded char (the Ok payload of the decoder item) is pushed, in order', okp)
         alts = [t for t, _ in arena.alternatives(I, r.ret, set())] if r.ret is not None else []
         check('from_utf16_in', 'an unpaired surrogate ends in Err(FromUtf16Error), otherwise Ok(the string built)', len(alts) == 2 and any(t[0] == 'agg' and t[2] == 'Err' for t in alts) and any(t[0] == 'agg' and t[2] == 'Ok' for t in alts))
@@ -512,7 +539,38 @@ def classify_view(I, r, e, arg, fn, ret_state=None):
                 others = [ev for ev in r.events if ev.is_own() and (ev.kind == 'copy' or (ev.kind == 'call' and ev.callee in ('core::ptr::write', 'core::ptr::write_bytes'))) and ev not in cps]
                 if len(cps) == 1 and not others:
                     return 'every visible byte was copied from a &str parameter of the same length'
+    if tail_copy(I, r, arg) is not None:
+        return 'every visible byte was copied from the tail of self.vec starting at a validated char boundary'
     return None
+
+
+def tail_copy(I, r, arg):
+    """`arg` is a vector whose whole visible content [0, len) is one copy of self.vec[at ..] with len == self.len - at and `at`
+    validated as a char boundary (Vec::split_off written out in place); returns `at`"""
+    if not (arg[0] == 'agg' and arg[1].endswith('vec::Vec')):
+        return None
+    n = field_of(arg, 'len')
+    buf = field_of(arg, 'buf')
+    bufp = field_of(buf, 'ptr') if buf is not None and buf[0] == 'agg' else None
+    cps = [ev for ev in r.events if ev.kind == 'copy' and ev.is_own()]
+    others = [ev for ev in r.events if ev.is_own() and ev.kind == 'call' and ev.callee in ('core::ptr::write', 'core::ptr::write_bytes')]
+    if len(cps) != 1 or others or bufp is None or n is None:
+        return None
+    c = cps[0]
+    if c.args[1] != bufp or c.args[2] != n:
+        return None
+    src = strip(c.args[0])
+    d, k = lin(src)
+    if k != 0 or d.get(BASE) != 1 or len(d) != 2:
+        return None
+    at = [x for x in d if x != BASE][0]
+    if d[at] != 1:
+        return None
+    if strip(n) not in (('app', 'wsub', LEN, at), app('sub', LEN, at)):
+        return None
+    if not boundary_gated(I, r, c, at):
+        return None
+    return at
 
 
 RFC3629_WIDTH = [1] * 0x80 + [0] * (0xC2 - 0x80) + [2] * (0xE0 - 0xC2) + [3] * 16 + [4] * 5 + [0] * (0x100 - 0xF5)
@@ -526,7 +584,14 @@ def accepted_pairs(arms):
     """set of (first, second) byte pairs accepted by a `match (first, second)` whose last arm `_` is the error arm"""
     acc = set()
     seen = set()
+    flat = []
     for a in arms:
+        # `A | B | C => ..` (as `matches!` writes it) is the arms A, B, C in that order
+        if isinstance(a['pat'], dict) and 'or' in a['pat'] and not a.get('guard'):
+            flat.extend({'pat': q, 'guard': False} for q in a['pat']['or'])
+        else:
+            flat.append(a)
+    for a in flat:
         p = a['pat']
         if p == '_' or a.get('guard'):
             continue
